@@ -218,7 +218,10 @@ impl Gatekeeper {
         if diff <= user_info.available_slots as i64 {
             // Filling / freeing slots depending on whether this is an update or not, and if it is bigger or smaller
             // than the old appointment
-            user_info.available_slots = (user_info.available_slots as i64 - diff) as u32;
+            // Renewals fill `available_slots` up to `u32::MAX` without counting the slots in use, so slots given back
+            // by a smaller replacement saturate (same as the refund in [Self::delete_appointments]).
+            user_info.available_slots =
+                (user_info.available_slots as i64 - diff).min(u32::MAX as i64) as u32;
 
             self.dbm.lock().unwrap().update_user(user_id, user_info);
 
